@@ -293,6 +293,12 @@ def randomNext (s : Nat) : Nat := (s * 48271 % 4294967296) % 2147483647
 /-- src: ot_layout_gsubgpos.rs::hb_ot_apply_context_t::new — `random_state` of a fresh context (generated) -/
 def randomInit : Nat := Gen.Lifecycle.randomSeed
 
+/-- src: ot_layout_gsubgpos.rs::hb_ot_apply_context_t::new called by apply_layout_table on the buffer of a later shaping call:
+    the state an apply context starts from when its buffer has shaped before and was recycled with `clear()` (generated: two
+    earlier shape() calls that drew 9 alternates through `rand`).  `earlier = 0`: the buffer is fresh. -/
+def applyCtxRandomInit (earlierShapes : Nat) : Nat :=
+  if earlierShapes = 0 then randomInit else Gen.Lifecycle.randomSeedRecycled
+
 /-- initial state followed by the first `n` random numbers of one table application -/
 def randomSeq : Nat → Nat → List Nat
   | s, 0 => [s]
